@@ -359,7 +359,10 @@ def run_unit(c: Contract, timeout_ms=10000, lookup=None):
 
 def _run_instance(c, tree, mod, label, recv, rep, timeout_ms, lookup):
     ctx = Ctx()
-    target_node = extract.find(tree, c.qual)
+    try:
+        target_node = extract.find(tree, c.qual)
+    except LookupError as e:
+        raise Unsupported(f"the contract's target no longer exists: {e}")
     _, sha, l0, l1 = extract.segment(c.file, target_node)
     rep.src = (sha, l0, l1)
     rep.decorators = extract.dropped_decorators(target_node)
@@ -429,7 +432,19 @@ def _run_instance(c, tree, mod, label, recv, rep, timeout_ms, lookup):
         else:
             gen = interp.call_closure(s0, clo, pos, kw)
         for s1, r in gen:
-            paths.append((s1, r, spec_names, clo.is_gen))
+            if c.then and r[0] == "ok":
+                if r[1].kind != "fn":
+                    raise Unsupported("`then` stage: the unit did not return a closure")
+                names2 = dict(spec_names)
+                tp = {nm: make_param(interp, s1, nm, kd) for nm, kd in c.then.items()}
+                names2.update(tp)
+                names2["stage1"] = r[1]
+                for s2, r2 in interp.call_closure(s1, r[1].d, list(tp.values()), {}):
+                    paths.append((s2, r2, names2, False))
+            elif c.then:
+                pass      # stage 1 itself failed (e.g. the next provider declined): no processor to speak about
+            else:
+                paths.append((s1, r, spec_names, clo.is_gen))
             if len(paths) > (c.max_paths or ctx.max_paths):
                 raise Unsupported("path explosion")
     rep.n_paths = len(paths)
